@@ -283,6 +283,21 @@ def explore(chk):
         chk.count("purity")
         if geo.obs_layout(l) != before:
             chk.property_failure({"op": "purity", "layout": str(before), "after": str(geo.obs_layout(l))}, "relativizing or fitting modified the receiver")
+        # the value handed back is a value like any other: it equals what an equal layout that was never hashed or used
+        # before gives, and hashes like it (the receiver `l` has been hashed, relativized and fitted above)
+        import copy as _copy
+        twin = _copy.deepcopy(l)
+        for name_, op_ in (("as_percentage_of", lambda x: x.as_percentage_of(640, 360)), ("fit_to_screen", lambda x: x.fit_to_screen())):
+            try:
+                r_used = op_(l)
+                r_new = op_(g.Layout(origin=twin.origin, extent=twin.extent, padding=twin.padding, alignment=twin.alignment,
+                                     webvtt_positioning=twin.webvtt_positioning))
+            except Exception:
+                continue
+            chk.count("derived_value_pairs")
+            if r_used != r_new or hash(r_used) != hash(r_new):
+                chk.property_failure({"op": name_, "layout": str(before), "equal": bool(r_used == r_new), "hash_used": hash(r_used), "hash_fresh": hash(r_new)},
+                                     "the result of %s on a layout that has been hashed / used before differs (as a value or in its hash) from the result on an equal fresh layout" % name_)
     chk.recheck("geometry parsing / printing")
 
 
